@@ -83,14 +83,16 @@ def check(sim, box, gravity_data=False, ktol=16.0, stats=None):
     X = R.pos(s)[lp]
     C = geo[li, 0:3]
     W = geo[li, 3]
-    slack = ktol * EPS * (np.abs(C) + W[:, None] + np.abs(X))
+    # cell centres descend from the root centre by repeated +-w/4: their rounding error is relative to the box size
+    Lmax = max(Lx, Ly, Lz)
+    slack = ktol * EPS * (Lmax + np.abs(C) + W[:, None] + np.abs(X))
     out = np.abs(X - C) > (W[:, None] / 2 + slack)
     if out.any():
         k = int(np.nonzero(out.any(axis=1))[0][0])
         raise Problem("particle %d (hash %d) at %r is outside its leaf cell centre %r width %r"
                       % (int(lp[k]), int(s["hash"][lp[k]]), X[k].tolist(), C[k].tolist(), float(W[k])))
     if stats is not None and N:
-        stats["contain_margin"] = float(np.max((np.abs(X - C) - W[:, None] / 2) / (EPS * (np.abs(C) + W[:, None] + np.abs(X)) + 1e-300)))
+        stats["contain_excess/eps_scale"] = float(np.max((np.abs(X - C) - W[:, None] / 2) / (EPS * (Lmax + np.abs(C) + W[:, None] + np.abs(X)))))
     # 4. root geometry
     ri = np.nonzero(parent < 0)[0]
     for k in ri:
@@ -115,7 +117,7 @@ def check(sim, box, gravity_data=False, ktol=16.0, stats=None):
         sgn = np.stack([np.where((o >> 0) & 1, -1.0, 1.0), np.where((o >> 1) & 1, -1.0, 1.0),
                         np.where((o >> 2) & 1, -1.0, 1.0)], axis=1)
         ref = geo[p, 0:3] + sgn * (wpar / 4)[:, None]
-        if (np.abs(geo[ci, 0:3] - ref) > ktol * EPS * (np.abs(ref) + wpar[:, None])).any():
+        if (np.abs(geo[ci, 0:3] - ref) > ktol * EPS * (np.abs(ref) + wpar[:, None])).any():   # one rounded addition
             raise Problem("a child cell is not centred in its octant of the parent")
     # 6. counts, masses, centres of mass: accumulate from leaves upwards (children come after parents in pre-order)
     cnt = np.zeros(ncell, dtype=np.int64)
